@@ -16,7 +16,7 @@ def run(tier, seed):
                        "thresholds changed at flush-quiescent points; every argument list contains a call with a side effect. Judged: argument evaluated "
                        "<=> level >= logger level at the call; sink S records it <=> level >= S.level and all filters of S accept, independently per sink; "
                        "recorded level and description = the level given; the line = S's override pattern if any else the logger's",
-                       ["level/filter changes concurrent with logging (interval semantics) are not exercised: changes happen at exact points"])
+                       ["mode S: level/filter changes happen at exact points; mode F: changes concurrent with logging are judged by the interval rule (either value current during the call is accepted)"])
 
 
 def replay(path):
